@@ -222,6 +222,7 @@ type GenOpts struct {
 	MaxIn      int
 	Mix        string // "uniform", "and", "orinv", "xnor", "free"
 	AllowReuse bool   // allow a gate to overwrite an earlier non-input wire
+	N0, N1     int    // fixed argument widths (0 = random in 1..MaxIn)
 }
 
 // GenCircuit builds a random well-formed circuit: every gate input is an
@@ -231,6 +232,12 @@ type GenOpts struct {
 func GenCircuit(r *Rng, o GenOpts) *circuit.Circuit {
 	n0 := 1 + r.Intn(o.MaxIn)
 	n1 := 1 + r.Intn(o.MaxIn)
+	if o.N0 > 0 {
+		n0 = o.N0
+	}
+	if o.N1 > 0 {
+		n1 = o.N1
+	}
 	nin := n0 + n1
 	ng := 1 + r.Intn(o.MaxGates)
 	if r.Intn(4) == 0 {
@@ -293,6 +300,51 @@ func GenCircuit(r *Rng, o GenOpts) *circuit.Circuit {
 		Stats:    stats,
 	}
 	return c
+}
+
+// GenParityCircuit builds a circuit whose 8 output bits are the XOR of the
+// input bits i with i%8 == j (plus a final AND/OR mix so that tables are
+// transmitted): every input bit of either party influences an output, so a
+// wrong input label anywhere shows in the result.
+func GenParityCircuit(r *Rng, n0, n1 int) *circuit.Circuit {
+	nin := n0 + n1
+	var gates []circuit.Gate
+	var stats circuit.Stats
+	acc := make([]int, 8)
+	for j := 0; j < 8; j++ {
+		acc[j] = j % nin
+	}
+	next := nin
+	for i := 8; i < nin; i++ {
+		g := circuit.Gate{Input0: circuit.Wire(acc[i%8]), Input1: circuit.Wire(i), Output: circuit.Wire(next), Op: circuit.XOR}
+		gates = append(gates, g)
+		stats[circuit.XOR]++
+		acc[i%8] = next
+		next++
+	}
+	// a non-free layer: t = acc0 AND acc1 (dropped), then outputs re-emitted
+	// through XOR with (t XOR t) = 0 so that they stay the parities
+	t := next
+	gates = append(gates, circuit.Gate{Input0: circuit.Wire(acc[0]), Input1: circuit.Wire(acc[1]), Output: circuit.Wire(t), Op: circuit.AND})
+	stats[circuit.AND]++
+	next++
+	z := next
+	gates = append(gates, circuit.Gate{Input0: circuit.Wire(t), Input1: circuit.Wire(t), Output: circuit.Wire(z), Op: circuit.XOR})
+	stats[circuit.XOR]++
+	next++
+	for j := 0; j < 8; j++ {
+		gates = append(gates, circuit.Gate{Input0: circuit.Wire(acc[j]), Input1: circuit.Wire(z), Output: circuit.Wire(next), Op: circuit.XOR})
+		stats[circuit.XOR]++
+		next++
+	}
+	return &circuit.Circuit{
+		NumGates: len(gates),
+		NumWires: next,
+		Inputs:   circuit.IO{UintIO("a", n0), UintIO("b", n1)},
+		Outputs:  circuit.IO{UintIO("r", 8)},
+		Gates:    gates,
+		Stats:    stats,
+	}
 }
 
 func MinInt(a, b int) int {
